@@ -70,6 +70,7 @@ SPEC_NAMES = {
     "get_truthy",
     "tokens_have_upgrade",
     "has_header",
+    "key_pos",
 }
 
 
@@ -343,9 +344,13 @@ class SpecMixin:
         name = e.args[0].value
         var = e.args[1].value
         out = []
-        for x in self.traces.get(name, []):
-            if isinstance(x, TraceGap):
-                raise ContractError("trace quantifier over a trace with a loop gap")
+        entries = self.traces.get(name, [])
+        # entries before a loop gap belong to earlier iterations: only what follows it is known
+        for k in range(len(entries) - 1, -1, -1):
+            if isinstance(entries[k], TraceGap):
+                entries = entries[k + 1:]
+                break
+        for x in entries:
             f2 = Frame(fr.fn_qual, fr.module, spec=True)
             f2.locals.update(fr.locals)
             f2.locals[var] = x
@@ -480,3 +485,9 @@ class SpecMixin:
             return False
         f = z3.Function("has_header", seq.e.sort(), z3.StringSort(), z3.BoolSort())
         return mk_bool(f(seq.e, str_to_z3(name)))
+
+    def sp_key_pos(self, e, fr):
+        """key_pos(_it, k): position of key k in the key list being iterated"""
+        lst = self.ev(e.args[0], fr)
+        k = z3_of_int(self.ev(e.args[1], fr))
+        return mk_int(lst.pos(k))
